@@ -7645,10 +7645,10 @@ let init c kind args data =
         (((DBitVec (bv_empty, [], (unary_new bv_empty N0), N0, N0)), ROk),
           (SExact ROk))))
 
-(** val step :
+(** val step1 :
     cfg -> dstate -> n -> n list -> n list list -> (dstate * rv) * sres **)
 
-let step c st code args data =
+let step1 c st code args data =
   if N.leb (Npos (XO (XO (XO (XI (XO (XI (XI (XI (XI XH)))))))))) code
   then init c
          (N.sub code (Npos (XO (XO (XO (XI (XO (XI (XI (XI (XI XH)))))))))))
@@ -7748,3 +7748,141 @@ let step c st code args data =
                          | _ -> ((st0, RPanic), SAny))
                       | XH -> ((st0, RPanic), SAny)))
                 | _ -> ((st0, RPanic), SAny)))
+
+(** val nth_default : cfg -> dstate -> n -> nat -> (dstate * rv) * sres **)
+
+let rec nth_default c st nx fuel =
+  let (p, sp) = step1 c st nx [] [] in
+  let (st', r) = p in
+  (match fuel with
+   | O -> ((st', r), sp)
+   | S f ->
+     (match r with
+      | RNone -> ((st', r), sp)
+      | RPanic -> ((st', r), sp)
+      | _ -> nth_default c st' nx f))
+
+(** val drain :
+    cfg -> dstate -> n -> nat -> n -> rv -> bool -> (dstate * (n * rv)
+    res) * bool **)
+
+let rec drain c st nx fuel cnt last ok =
+  match fuel with
+  | O -> ((st, Panic), ok)
+  | S f ->
+    let (p, sp) = step1 c st nx [] [] in
+    let (st', r) = p in
+    let ok' =
+      (&&) ok
+        (match sp with
+         | SExact x ->
+           (match x with
+            | RNone -> (match r with
+                        | RNone -> true
+                        | _ -> false)
+            | RNum a -> (match r with
+                         | RNum b -> N.eqb a b
+                         | _ -> false)
+            | RBool a -> (match r with
+                          | RBool b -> eqb a b
+                          | _ -> false)
+            | _ -> false)
+         | _ -> true)
+    in
+    (match r with
+     | RNone -> ((st', (Ok (cnt, last))), ok')
+     | RPanic -> ((st', Panic), ok')
+     | _ -> drain c st' nx f (N.add cnt (Npos XH)) r ok')
+
+(** val step :
+    cfg -> dstate -> n -> n list -> n list list -> (dstate * rv) * sres **)
+
+let step c st code args data =
+  match code with
+  | N0 -> step1 c st code args data
+  | Npos p ->
+    (match p with
+     | XI p0 ->
+       (match p0 with
+        | XI p1 ->
+          (match p1 with
+           | XI p2 ->
+             (match p2 with
+              | XI p3 ->
+                (match p3 with
+                 | XO p4 ->
+                   (match p4 with
+                    | XH ->
+                      let (p5, ok) =
+                        drain c st (arg args O)
+                          (N.to_nat (Npos (XI (XO (XO (XO (XO (XO (XI (XO (XI
+                            (XO (XI (XI (XO (XO (XO (XO (XI
+                            XH))))))))))))))))))) N0 RNone true
+                      in
+                      let (st', r) = p5 in
+                      let m =
+                        match r with
+                        | Ok a ->
+                          let (n0, l) = a in
+                          if N.eqb code (Npos (XO (XI (XI (XI (XO XH))))))
+                          then RNum n0
+                          else l
+                        | Panic -> RPanic
+                      in
+                      ((st', m),
+                      (if ok then SExact m else SPred (fun _ -> false)))
+                    | _ -> step1 c st code args data)
+                 | _ -> step1 c st code args data)
+              | _ -> step1 c st code args data)
+           | XO p2 ->
+             (match p2 with
+              | XI p3 ->
+                (match p3 with
+                 | XO p4 ->
+                   (match p4 with
+                    | XH ->
+                      nth_default c st (arg args (S O))
+                        (N.to_nat
+                          (N.min (arg args O) (Npos (XO (XO (XO (XO (XO (XO
+                            (XI (XO (XI (XO (XI (XI (XO (XO (XO (XO (XI
+                            XH))))))))))))))))))))
+                    | _ -> step1 c st code args data)
+                 | _ -> step1 c st code args data)
+              | _ -> step1 c st code args data)
+           | XH -> step1 c st code args data)
+        | _ -> step1 c st code args data)
+     | XO p0 ->
+       (match p0 with
+        | XI p1 ->
+          (match p1 with
+           | XI p2 ->
+             (match p2 with
+              | XI p3 ->
+                (match p3 with
+                 | XO p4 ->
+                   (match p4 with
+                    | XH ->
+                      let (p5, ok) =
+                        drain c st (arg args O)
+                          (N.to_nat (Npos (XI (XO (XO (XO (XO (XO (XI (XO (XI
+                            (XO (XI (XI (XO (XO (XO (XO (XI
+                            XH))))))))))))))))))) N0 RNone true
+                      in
+                      let (st', r) = p5 in
+                      let m =
+                        match r with
+                        | Ok a ->
+                          let (n0, l) = a in
+                          if N.eqb code (Npos (XO (XI (XI (XI (XO XH))))))
+                          then RNum n0
+                          else l
+                        | Panic -> RPanic
+                      in
+                      ((st', m),
+                      (if ok then SExact m else SPred (fun _ -> false)))
+                    | _ -> step1 c st code args data)
+                 | _ -> step1 c st code args data)
+              | _ -> step1 c st code args data)
+           | _ -> step1 c st code args data)
+        | _ -> step1 c st code args data)
+     | XH -> step1 c st code args data)
